@@ -66,14 +66,14 @@ fn main() {
         "gml-docs" => {
             let file = std::fs::File::create(m.get("out").expect("--out")).expect("create out");
             let mut em = mutgen::Emitter::new(BufWriter::new(file));
-            let mut pool = watchdog::Pool::new();
+            let mut pool = watchdog::Pool::with_hang_budget(5);
             gml::doc_events(&mut em, m.get("in").expect("--in"), &mut pool);
             println!("{{\"events\":{},\"child_calls\":{},\"hangs\":{},\"aborts\":{}}}", em.next_id - 1, pool.calls, pool.hangs, pool.aborts);
         }
         "gml-corrupt" => {
             let file = std::fs::File::create(m.get("out").expect("--out")).expect("create out");
             let mut em = mutgen::Emitter::new(BufWriter::new(file));
-            let mut pool = watchdog::Pool::new();
+            let mut pool = watchdog::Pool::with_hang_budget(5);
             gml::corruption_events(&mut em, geti(&m, "n", 20) as usize, geti(&m, "stride", 3) as usize, geti(&m, "seed", 0) as u64, &mut pool);
             println!("{{\"events\":{},\"child_calls\":{},\"hangs\":{},\"aborts\":{}}}", em.next_id - 1, pool.calls, pool.hangs, pool.aborts);
         }
@@ -201,7 +201,7 @@ fn cmd_observe(m: &HashMap<String, String>) {
     let f = std::io::BufReader::new(std::fs::File::open(m.get("in").expect("--in")).expect("open cases"));
     let file = std::fs::File::create(m.get("out").expect("--out")).expect("create out");
     let mut em = mutgen::Emitter::new(BufWriter::new(file));
-    let mut pool = watchdog::Pool::new();
+    let mut pool = watchdog::Pool::with_hang_budget(5);
     for line in f.lines() {
         let line = line.unwrap();
         if line.trim().is_empty() {
@@ -241,6 +241,7 @@ fn cmd_worker() {
             let case = &req["case"];
             let specs = SpecsJ::from_json(&case["specs"]);
             let ops: Vec<Op> = case["ops"].as_array().unwrap().iter().map(Op::from_json).collect();
+            model::set_wdiv(case["wdiv"].as_i64().unwrap_or(1));
             let g = build(specs, &ops);
             match req["call"]["kind"].as_str().unwrap() {
                 "louvain" => algo2::louvain_call(&g, &req["call"]["args"]),
@@ -270,6 +271,20 @@ fn cmd_gen_cases(m: &HashMap<String, String>) {
     let all = SpecsJ::all();
     if kind == "forest" {
         for case in cases::forest_cases(&mut rng, n, minn, maxn) {
+            writeln!(out, "{}", case).unwrap();
+        }
+        return;
+    }
+    if kind == "halves" {
+        // weighted graphs whose real weights are multiples of 1/2 (wdiv = 2) or 1/4 (wdiv = 4): weights
+        // below 1, and weight sums that equal the edge count although not every weight is 1
+        for i in 0..n {
+            let specs = kinds[i % kinds.len()];
+            let nn = rng.gen_range(minn..=maxn);
+            let p = [0.3, 0.5, 0.8][rng.gen_range(0..3)];
+            let (weights, d): (Vec<i64>, i64) = match i % 3 { 0 => (vec![1, 3], 2), 1 => (vec![1, 2, 3, 5], 2), _ => (vec![1, 3, 4, 7], 4) };
+            let mut case = cases::case_json(specs, &cases::random_graph(&mut rng, specs, nn, p, &weights), "halves");
+            case["wdiv"] = serde_json::json!(d);
             writeln!(out, "{}", case).unwrap();
         }
         return;
